@@ -12,7 +12,7 @@ from ..astutil import text, short, endswith, calls_in
 from ..absdom import IntSet, cond_set, INF
 from ..dataflow import DefUse
 from .. import events as E
-from ._h_F import Res, res_of, call_arg, canon, atoms, is_none
+from ._h_F import ifn, Res, res_of, call_arg, canon, atoms, is_none
 
 EXPLANATION = (
   "Decides, by interpreting the id-filling loop of doBulkAddOrReplace over an interval domain, "
@@ -28,7 +28,7 @@ MAX_ID = 1000000
 
 def check(run, repo, tier):
   w = World(repo)
-  fn = w.fn("useractions.UserActions.doBulkAddOrReplace")
+  fn = ifn(w, "useractions.UserActions.doBulkAddOrReplace")
   fl = FillLoop(w, fn)
   r1_domain(run, w, fn, fl)
   r2_distinct(run, w, fn, fl)
@@ -273,7 +273,7 @@ def r2_distinct(run, w, fn, fl):
 def r3_docaction_assert(run, w):
   R3 = run.rule("C27-R3", "DocActions.BulkAddRecord asserts that none of the ids exists before "
                 "its first mutation", floor=1)
-  fn = w.fn("docactions.DocActions.BulkAddRecord")
+  fn = ifn(w, "docactions.DocActions.BulkAddRecord")
   r = res_of(w, fn)
   cfg = fn.cfg
   ps = fn.fi.params()
@@ -283,9 +283,10 @@ def r3_docaction_assert(run, w):
       continue
     for pol in (True, False):
       for (a, p) in atoms(n.stmt.test, pol):
-        if not (isinstance(a, ast.Compare) and isinstance(a.ops[0], ast.In) and
-                isinstance(a.comparators[0], ast.Attribute) and
-                a.comparators[0].attr == "row_ids"):
+        if not (isinstance(a, ast.Compare) and isinstance(a.ops[0], ast.In)):
+          continue
+        where = r.expand(a.comparators[0], n.id)
+        if not (isinstance(where, ast.Attribute) and where.attr == "row_ids"):
           continue
         encl = [l for l in r.enclosing(n.stmt, (ast.For,))
                 if r.norm(l.iter) == ps[2] and text(l.target) == text(a.left)]
@@ -369,7 +370,7 @@ def r4_counter(run, w, fn, fl):
   run.ob(R4, fn.qualname, "<counter> = 1 if replace else table.next_row_id()",
          "allocation starts above every existing row (or at 1 when the table is replaced)",
          init_ok, fi=fn.fi)
-  nr = w.fn("table.Table.next_row_id")
+  nr = ifn(w, "table.Table.next_row_id")
   e = res_of(w, nr).result_expr()
   ok = e is not None and text(e) in ("self.row_ids.max() + 1", "1 + self.row_ids.max()")
   run.ob(R4, nr.qualname, "return self.row_ids.max() + 1", "next id is one past the largest "
